@@ -10,6 +10,7 @@ import (
 	"crypto/sha256"
 	"encoding/base64"
 	"encoding/json"
+	"errors"
 	"fmt"
 	"io"
 	"net/http"
@@ -21,6 +22,9 @@ import (
 	"github.com/google/certificate-transparency-go/trillian/ctfe"
 	"github.com/google/certificate-transparency-go/x509"
 	"github.com/google/trillian"
+	"google.golang.org/grpc/codes"
+	"google.golang.org/grpc/status"
+	"google.golang.org/protobuf/proto"
 	"pgregory.net/rapid"
 
 	"verif/internal/ctfex"
@@ -41,6 +45,9 @@ type Step struct {
 	AdvanceNs int64 // advance
 	SeqN      int   // sequence: how many pending leaves (-1 all)
 	Ext       []byte // foreign: the CtExtensions of the stored entry
+	// FailFirst > 0 (fresh): a first attempt meets a backend that fails QueueLeaf (1 Unavailable, 2 DeadlineExceeded,
+	// 3 Internal, 4 a plain error); the clock then moves on by a millisecond or more and the chain is submitted again
+	FailFirst int
 }
 
 type Case struct {
@@ -94,7 +101,11 @@ func gen(t *rapid.T) Case {
 		switch {
 		case k <= 4 || fresh == 0:
 			s := world.GenSpecX(t, fmt.Sprintf("s%d", i))
-			c.Steps = append(c.Steps, Step{Kind: "fresh", Spec: &s})
+			st := Step{Kind: "fresh", Spec: &s}
+			if rapid.IntRange(0, 7).Draw(t, "failfirst") == 0 {
+				st.FailFirst, st.AdvanceNs = rapid.IntRange(1, 4).Draw(t, "ffkind"), rapid.Int64Range(1e6, 5e9).Draw(t, "ffadv")
+			}
+			c.Steps = append(c.Steps, st)
 			fresh++
 		case k <= 6:
 			if rapid.IntRange(0, 9).Draw(t, "advfirst") < 7 {
@@ -478,6 +489,25 @@ func check(t *testing.T, c Case) (v harness.Verdict) {
 					dup = &f
 					break
 				}
+			}
+			if s.FailFirst > 0 && dup == nil && !broken[nSubmit] {
+				ferr := []error{status.Error(codes.Unavailable, "injected"), status.Error(codes.DeadlineExceeded, "injected"), status.Error(codes.Internal, "injected"), errors.New("injected")}[(s.FailFirst-1)%4]
+				be.Intercept = func(cl reflog.Call) (proto.Message, error, bool) {
+					if cl.RPC == "QueueLeaf" {
+						return nil, ferr, true
+					}
+					return nil, nil, false
+				}
+				path := "/ct/v1/add-chain"
+				if b.Spec.Precert {
+					path = "/ct/v1/add-pre-chain"
+				}
+				if rsp := inst.Post(path, styledBody(b.Submit, c.BodyStyle)); rsp.Status == 200 {
+					v.Failf("sct-without-backend", "step %d: the backend refused QueueLeaf (%v), yet the answer is 200 %s", i, ferr, rsp.Body)
+				}
+				be.Intercept = nil
+				clock.Add(time.Duration(s.AdvanceNs))
+				v.Class("first-attempt-met-backend-fault")
 			}
 			submit(i, b, b.Submit, dup)
 		case "resubmit":
